@@ -4,11 +4,14 @@ C08 — proof tokens are final once encoded.
 Generic theorems (every `Crypto B`) over the token state machine of Token/Macaroon.lean:
 `add`, `encodeState` (the state change of Encode/String/Clone), `verifyWith`; a decoded copy is
 `newProof = false` by construction (`Concrete.ofWire`).  The symbolic part (a proof extended by
-hand from its published tail is rejected: `extension_rejected`) is in Props/Symbolic.lean.
+hand from its published tail is rejected: `extension_rejected`; an unfinalised tail on the wire is
+rejected: `unfinalised_wire_tail_rejected`) is in Props/Symbolic.lean; the state machine with wire hops
+(`final_stable_with_hops`, `final_refuses_add_with_hops`) at byte level in Props/Concrete.lean.
 Tie: family `proof`.
 -/
 import Macaroon.Lemmas.Token
 import Macaroon.Token.Concrete
+import Macaroon.Crypto.Symbolic
 
 namespace Macaroon.Props.C08
 open Macaroon Macaroon.Crypto Macaroon.Lemmas
@@ -148,6 +151,32 @@ theorem verified_proof_is_finalised (k : B) (m : Mac B) (dms : List (Mac B)) (tr
     ∃ t, chain (macNonce k m.nonce) m.cavs = some t ∧ ctEq (finalize t) m.tail = true := by
   obtain ⟨_, _, t, hc, he, _⟩ := (verifyWith_ok_iff k m dms [] true tr cs).mp hv
   exact ⟨t, hc, by simpa [finIf, h] using he⟩
+
+/-! ### non-vacuity (symbolic instance) -/
+
+section examples
+open Symbolic Symbolic.Term
+
+/-- a fresh discharge proof under key `atom 11` -/
+def f0 : Mac Term := mint (atom 11) (lit [7]) [9] (atom 14) true
+def f1 : Mac Term := (add f0 [.plain (.confineUser 5)]).1
+
+example : f1.cavs = [.confineUser 5] := by rfl
+example := encoded_not_new f1 rfl
+example : add (encodeState f1) [.plain (.isUser 1)] = (encodeState f1, some .finalizedProof) :=
+  final_after_encode f1 _ rfl
+example := final_is_stable (encodeState f1) rfl rfl (.add [.plain (.isUser 1)])
+example := final_after_any_sequence f0 rfl [.add [.plain (.confineUser 5)]] [.encode, .add [.plain (.isUser 2)], .encode]
+  [.plain (.isUser 1)]
+example := finalize_once f1 rfl rfl 3
+example : (encodeState (encodeState f1)).tail = finalize f1.tail := by rfl
+example : verify (atom 11) f1 [] (fun _ => []) = .error .unfinalized := unfinalised_unverifiable _ _ _ _ _ _ rfl rfl
+example : verify (atom 11) (encodeState f1) [] (fun _ => []) = .ok [.confineUser 5] := by rfl
+example := verified_proof_is_finalised (atom 11) (encodeState f1) [] (fun _ => []) _ rfl (by rfl)
+example := proof_stays_proof f1 (.add [.plain (.isUser 1)])
+example := decoded_proof_refuses_add ⟨⟨[1], [2], 1, true⟩, [], [], []⟩ [.plain (.isUser 1)] rfl
+
+end examples
 
 end Macaroon.Props.C08
 
